@@ -349,14 +349,18 @@ def check_history(case) -> Outcome:
     for i, step in enumerate(case["steps"]):
         if i:
             parser.set_feature_flags(set(step["flags"]))
-        if step.get("via") == "pickle":
-            import pickle
+        try:
+            if step.get("via") == "pickle":
+                import pickle
 
-            parser = pickle.loads(pickle.dumps(parser))
-        elif step.get("via") == "deepcopy":
-            import copy
+                parser = pickle.loads(pickle.dumps(parser))
+            elif step.get("via") == "deepcopy":
+                import copy
 
-            parser = copy.deepcopy(parser)
+                parser = copy.deepcopy(parser)
+        except Exception as e:
+            out.fail("parser-copy-raises", f"step {i} of {case['steps']}: {step['via']} of a used parser: {type(e).__name__}: {str(e)[:150]}")
+            break
         fresh = libio.parser_for({"intercept": case["intercept"], "flags": step["flags"]})
         res = []
         for p in (parser, fresh):
